@@ -163,3 +163,44 @@ def json_facts(repo):
     empty('json-string-is-quoted', z3.Intersect(external.json_string_re(),
                                                 z3.Complement(z3.Concat(rx.ch('"'), any_star(), rx.ch('"')))))
     return out
+
+
+def linebreak_facts(repo):
+    """C09: in string input only LF, CRLF and CR end a line.  The splitter is the module constant
+    _LINE_BREAK (a compiled pattern) used by lex() for str input; the facts: its language is exactly
+    {CRLF, CR, LF}; CRLF is tried first (one break, not two); lex() splits str input with it."""
+    mod = repo.module('penman._lexer')
+    out = []
+    x = z3.String('x')
+    call = mod.consts.get('_LINE_BREAK')
+    if not (isinstance(call, ast.Call) and isinstance(call.func, ast.Attribute) and call.func.attr == 'compile'
+            and call.args and isinstance(call.args[0], ast.Constant) and len(call.args) == 1 and not call.keywords):
+        raise ValueError('_LINE_BREAK is no longer a pattern compiled from a literal (str input may be split differently)')
+    pat = call.args[0].value
+    r = rx.from_python(pat)
+    want = z3.Union(z3.Re(z3.StringVal('\r\n')), z3.Re(z3.StringVal('\r')), z3.Re(z3.StringVal('\n')))
+    out.append(Obligation('linebreak:language.1', 'regex', [], z3.Not(z3.InRe(x, z3.Intersect(r, z3.Complement(want)))), {}))
+    out.append(Obligation('linebreak:language.2', 'regex', [], z3.Not(z3.InRe(x, z3.Intersect(want, z3.Complement(r)))), {}))
+    # leftmost alternative wins: CRLF must come before CR
+    tree = rx.parse(pat)
+    items = list(tree)
+    first_alt = None
+    if len(items) == 1 and items[0][0] is rx.sre_c.BRANCH:
+        first_alt = rx.translate(items[0][1][1][0])
+    elif len(items) == 1 and items[0][0] is rx.sre_c.SUBPATTERN:
+        first_alt = None
+    ok = first_alt is not None
+    goal = z3.BoolVal(False) if not ok else z3.Not(z3.InRe(x, z3.Intersect(
+        z3.Re(z3.StringVal('\r\n')), z3.Complement(first_alt))))
+    out.append(Obligation('linebreak:crlf-is-one-break', 'regex', [], goal, {}))
+    # lex() uses it for str input
+    f = mod.func('lex')
+    uses = any(isinstance(n, ast.Call) and isinstance(n.func, ast.Attribute) and n.func.attr == 'split'
+               and isinstance(n.func.value, ast.Name) and n.func.value.id == '_LINE_BREAK'
+               and len(n.args) == 1 and isinstance(n.args[0], ast.Name) and n.args[0].id == 'lines'
+               for n in ast.walk(f))
+    other = any(isinstance(n, ast.Call) and isinstance(n.func, ast.Attribute) and n.func.attr in ('splitlines',)
+                for n in ast.walk(f))
+    out.append(Obligation('linebreak:lex-splits-str-input-with-it', 'regex', [],
+                          z3.BoolVal(bool(uses and not other)), {}))
+    return out
